@@ -196,7 +196,8 @@ package parse
 // run: the goroutine body. It cannot panic, every iteration makes progress, and it
 // stops exactly when a terminal item has been handed to the consumer.
 //@ func (*lexer).run
-//@   requires LI(l) && l.start == 0 && l.pos == 0
+//@   requires LI(l) && l.start == 0 && l.pos == 0 && !chanclosed(l.items)
+//@   modifies closed(l.items)
 //@   modifies l.state
 //@   modifies l.pos
 //@   modifies l.start
@@ -206,7 +207,8 @@ package parse
 //@   modifies mapof(l.interner.knownStrings)
 //@   nopanic
 //@   ensures nsent(l.items) > old(nsent(l.items)) && (lastsent(l.items).typ == itemEOF || lastsent(l.items).typ == itemError)
-//@   loop 0 invariant LI(l) && sameText(l) && nsent(l.items) >= old(nsent(l.items))
+//@   ensures chanclosed(l.items)
+//@   loop 0 invariant LI(l) && sameText(l) && nsent(l.items) >= old(nsent(l.items)) && !chanclosed(l.items)
 //@   loop 0 invariant implies(l.state != nil, isstate(l.state) && statepre(l.state, l))
 //@   loop 0 invariant implies(l.state == nil, nsent(l.items) > old(nsent(l.items)) && (lastsent(l.items).typ == itemEOF || lastsent(l.items).typ == itemError))
 //@   loop 0 decreases ite(l.state == nil, 0, measure(l.state, l) + 1)
